@@ -28,8 +28,9 @@ CHECKS = {
     "C03": ("icontract postcondition on the real PrettyPrinter.pprint: the returned text is read by an independent scanner and "
             "walked in lock-step with the dictionary (lexical class per value decided by an independent schema reader)",
             "Vocabulary dictionaries built without the parser, generated/loaded documents, corpus files and 1-30 step dict-API "
-            "edit histories (incl. reads of missing keys) printed through dumps/dump/save/pprint; every call is judged. "
-            "Held on the calls observed; precondition failures are counted as skipped.",
+            "edit histories (incl. reads of missing keys) printed through dumps/dump/save/pprint; every call is judged; a sample "
+            "(every refused dictionary first) is printed again by child interpreters started with -O / -OO and must give the same "
+            "text or refusal. Held on the calls observed; precondition failures are counted as skipped.",
             "Trusted: mf/reader.py (scanner), mf/printcheck.py (walker), mf/vocab.py (required lexical class).",
             "DESIGN.md 2 C03"),
     "C04": ("boundary-history relations: byte equality of two successive formatting passes, exact equality of their loads, and "
@@ -83,7 +84,8 @@ CHECKS = {
             "calibrated on the corpus in the same run",
             "Structure-aware token mutations of corpus/generated documents, vocabulary token soups, unterminated constructs, every "
             "block type at the root and long repetitive inputs (quick <= 200 kB, thorough <= 1 MB). 'Terminates promptly' is restated "
-            "as bounded logical steps and CPU per input; held on the inputs observed.",
+            "as bounded logical steps and CPU per input; every sixth input is parsed again with the library's logger at DEBUG / INFO "
+            "(same outcome class); held on the inputs observed.",
             "Trusted: envelope constants derived from the corpus calibration; Lark's exception hierarchy.",
             "DESIGN.md 2 C11"),
     "C12": ("icontract snapshot+ensure purity contracts (argument fingerprints) on the real public functions + audit hook (no writes); "
